@@ -723,6 +723,30 @@ func (rn *runner) probeRun(ref *progen.Ref, o *runOut, sc *scenario) {
 	if ref.FieldReads > 0 && res.Threads > 1 {
 		P["field_read_with_goroutines"]++
 	}
+	// two threads that each wait for a channel the other closes (chains that feed each other)
+	closer := map[string]int{}
+	for _, e := range res.Events {
+		if e.Kind == "close" {
+			closer[e.Detail] = e.Thread
+		}
+	}
+	waits := map[[2]int]bool{}
+	for _, e := range res.Events {
+		if e.Kind == "recv" || e.Kind == "select" {
+			if c, ok := closer[e.Detail]; ok && c != e.Thread {
+				waits[[2]int{e.Thread, c}] = true
+			}
+		}
+	}
+	for k := range waits {
+		if k[0] < k[1] && waits[[2]int{k[1], k[0]}] {
+			if k[0] == 0 {
+				P["main_and_goroutine_feed_each_other"]++
+			} else {
+				P["two_goroutines_feed_each_other"]++
+			}
+		}
+	}
 	// final value produced inside a goroutine
 	for i := range res.Calls {
 		c := &res.Calls[i]
